@@ -71,13 +71,13 @@ def describe (st : St) (qs : List Nat) : String :=
     o.map fun nd => showNode p nd.previousP nd.nextP nd.previousForVars nd.nextForVars)
   -- T7–T10: getters by direct scans of the naive slot array
   let counts := (List.range 8).map fun b => toString (countBond s b)
-  let t7 := s!"g:{countOps s}/{optNat (firstOcc (occ s) L)}/{optNat (lastOcc (occ s) L)}/{String.intercalate "," counts}"
+  let t7 := s!"g:{countOps s}/{optNat (firstOcc (occAt s) L)}/{optNat (lastOcc (occAt s) L)}/{String.intercalate "," counts}"
   let t8 := "gv:" ++ joinOr "," ((List.range nv).map fun v =>
-    let has := (List.range L).any (occV s v)
+    let has := (List.range L).any (occVAt s v)
     s!"{optRel (firstRel s v)}/{optRel (lastRel s v)}/{showBool has}")
   let t9 := "gn:" ++ joinOr "+" ((List.range L).filterMap fun q =>
     (slotAt s q).map fun op =>
-      showNode q (prevOcc (occ s) q) (nextOcc (occ s) L q)
+      showNode q (prevOcc (occAt s) q) (nextOcc (occAt s) L q)
         (op.vars.map fun v => prevRel s v q) (op.vars.map fun v => nextRel s v q))
   let t10 := "nth:" ++ joinOr "," ((occPositions s).map toString)
   -- T11: the model's cursor walk
